@@ -277,12 +277,19 @@ func (fr *frame) inline(fn *ssa.Function, args []*Val, bindings []*Val, resT typ
 	nf := u.newFrame(fn, fr.depth+1, fr.pure, prefix)
 	nf.binders = fr.binders
 	nf.lets = fr.lets
+	if !fr.pure {
+		nf.parent, nf.via = fr, fr.cur
+	}
 	u.inlineStack = append(u.inlineStack, fn)
 	res, exitReach, exitSt := nf.run(args, bindings, st, reach)
 	u.inlineStack = u.inlineStack[:len(u.inlineStack)-1]
 	if !fr.pure {
 		*st = *exitSt
-		_ = exitReach
+		// Only executions in which the callee returns continue in the caller: the paths cut at the callee's loop back
+		// edges (and its panicking paths, each already obliged unreachable) end inside the callee.
+		if exitReach != reach {
+			u.assume(reach, exitReach)
+		}
 	}
 	return packResults(res, fn.Signature)
 }
@@ -455,7 +462,42 @@ func (fr *frame) havocElems(a *Val, t types.Type, st *State, reach string) {
 		k := u.fresh("k")
 		u.assume("true", fmt.Sprintf("(forall ((%s Int)) (! (and (<= 0 (select %s %s)) (<= (select %s %s) 255)) :pattern ((select %s %s))))", k, nv, k, nv, k, nv, k))
 	}
+	// only the window of the backing array that the slice can reach (offset .. offset+cap) may have been written
+	old := u.define("elems0", "(Array Int "+s.sortOf(et)+")", fmt.Sprintf("(select %s (s-arr %s))", h, a.t))
+	i := u.fresh("i")
+	u.assume("true", fmt.Sprintf("(forall ((%s Int)) (! (=> (or (< %s (s-off %s)) (>= %s (+ (s-off %s) (s-cap %s)))) (= (select %s %s) (select %s %s))) :pattern ((select %s %s))))",
+		i, i, a.t, i, a.t, a.t, nv, i, old, i, nv, i))
 	u.heapSet(st, name, hs, fmt.Sprintf("(store %s (s-arr %s) %s)", h, a.t, nv))
+}
+
+// copyElems: copy(dst, src) - the first n elements of dst's window become src's (as they were before the copy: overlap
+// is handled the way memmove does), everything else in dst's backing array stays.
+func (fr *frame) copyElems(dst, src *Val, t types.Type, n string, srcIsString bool, st *State, reach string) {
+	u := fr.u
+	s := u.sorts
+	sl, ok := t.Underlying().(*types.Slice)
+	if !ok {
+		return
+	}
+	et := sl.Elem()
+	es := s.sortOf(et)
+	name := "E:" + s.typeKey(et)
+	hs := "(Array Int (Array Int " + es + "))"
+	h := u.heapGet(st, name, hs)
+	nv := u.declare("copied", "(Array Int "+es+")")
+	old := u.define("elems0", "(Array Int "+es+")", fmt.Sprintf("(select %s (s-arr %s))", h, dst.t))
+	i := u.fresh("i")
+	in := fmt.Sprintf("(and (<= (s-off %s) %s) (< %s (+ (s-off %s) %s)))", dst.t, i, i, dst.t, n)
+	u.assume("true", fmt.Sprintf("(forall ((%s Int)) (! (=> (not %s) (= (select %s %s) (select %s %s))) :pattern ((select %s %s))))", i, in, nv, i, old, i, nv, i))
+	if !srcIsString {
+		from := u.define("elems0", "(Array Int "+es+")", fmt.Sprintf("(select %s (s-arr %s))", h, src.t))
+		u.assume("true", fmt.Sprintf("(forall ((%s Int)) (! (=> %s (= (select %s %s) (select %s (+ (- %s (s-off %s)) (s-off %s))))) :pattern ((select %s %s))))",
+			i, in, nv, i, from, i, dst.t, src.t, nv, i))
+	} else if b, ok := et.Underlying().(*types.Basic); ok && b.Kind() == types.Uint8 {
+		u.assume("true", fmt.Sprintf("(forall ((%s Int)) (! (and (<= 0 (select %s %s)) (<= (select %s %s) 255)) :pattern ((select %s %s))))", i, nv, i, nv, i, nv, i))
+		u.abstract("copy-from-string-contents")
+	}
+	u.heapSet(st, name, hs, fmt.Sprintf("(store %s (s-arr %s) %s)", h, dst.t, nv))
 }
 
 // ---------------------------------------------------------------------------
@@ -669,7 +711,7 @@ func (fr *frame) callSpecBuiltin(fn *ssa.Function, args []*Val, resT types.Type,
 	case "NoLocksHeld":
 		h := u.heapGet(st, "GH:locks", "(Array Int Int)")
 		return &Val{t: fmt.Sprintf("(= %s ((as const (Array Int Int)) 0))", h)}
-	case "sameSlice", "sameCerts", "sameElems", "sameStrings", "sameBytes", "sameAttrs", "sameChain", "sameFunc", "sameCipherFunc", "sameClaims":
+	case "sameSlice", "sameCerts", "sameElems", "sameStrings", "sameBytes", "sameAttrs", "sameChain", "sameFunc", "sameCipherFunc", "sameClaims", "sameTracked":
 		// identity of the two values (slice headers, or function values - which Go itself cannot compare)
 		return &Val{t: eq(fr.valTerm(args[0], st), fr.valTerm(args[1], st))}
 	case "ns":
@@ -728,8 +770,7 @@ func (fr *frame) callBuiltin(b *ssa.Builtin, c *ssa.CallCommon, args []*Val, st 
 			srcLen = fmt.Sprintf("(s-len %s)", src.t)
 		}
 		u.assume(reach, fmt.Sprintf("(= %s (ite (< (s-len %s) %s) (s-len %s) %s))", n, dst.t, srcLen, dst.t, srcLen))
-		fr.havocElems(dst, c.Args[0].Type(), st, reach)
-		u.abstract("copy-contents")
+		fr.copyElems(dst, src, c.Args[0].Type(), n, isString(c.Args[1].Type()), st, reach)
 		return &Val{t: n}
 	case "delete":
 		if args[0].guard != "" && !fr.pure {
